@@ -117,19 +117,14 @@ Proof.
   exists (mkPS [] [([100;98], mkDB [100;98] [] [([116], mkT [84] [0])])]), [100;98], [84], 0. vm_compute. auto.
 Qed.
 
-Theorem reload_loses_admin_option :
-  forall m, Forall (fun e => e_admin e = false) (m_edges (reload m)).
-Proof.
-  intros m. unfold reload, load, serialize. cbn [m_edges ms_edges]. rewrite map_map.
-  apply Forall_forall. intros e Hi. apply in_map_iff in Hi. destruct Hi as [x [<- _]]. reflexivity.
-Qed.
-
+(* the lower-cased-key witness: an account holding a privilege on database "Db" (live key "db") *)
 Theorem reload_identity_refuted : exists m, reload m <> m.
 Proof.
-  exists (mkM [] [mkE [37] [114] [37] [117] true]). vm_compute. discriminate.
+  exists (mkM [mkU [117] [37] [] [] false None (mkPS [] [([100;98], mkDB [68;98] [0] [])])] []).
+  vm_compute. discriminate.
 Qed.
 
-(* account attributes other than the privilege maps, and edges without the admin option, survive *)
+(* account attributes other than the privilege maps survive *)
 Theorem reload_preserves_account_fields m :
   map (fun u => (us_name u, us_host u, us_plugin u, us_auth u, us_locked u, us_attrs u)) (m_users (reload m)) =
   map (fun u => (us_name u, us_host u, us_plugin u, us_auth u, us_locked u, us_attrs u)) (m_users m).
@@ -137,11 +132,10 @@ Proof.
   unfold reload, load, serialize. cbn [m_users ms_users]. rewrite !map_map. apply map_ext. intros u. reflexivity.
 Qed.
 
-Theorem reload_preserves_edges_guarded m :
-  Forall (fun e => e_admin e = false) (m_edges m) -> m_edges (reload m) = m_edges m.
+(* role edges survive a reload, WITH ADMIN OPTION included, for every state *)
+Theorem reload_preserves_edges m : m_edges (reload m) = m_edges m.
 Proof.
-  intros Ha. unfold reload, load, serialize. cbn [m_edges ms_edges]. rewrite map_map.
-  induction (m_edges m) as [|e es IH]; [reflexivity|]. cbn [map].
-  inversion Ha as [|? ? He Hes]; subst. rewrite IH by exact Hes. f_equal.
-  destruct e as [a b c d adm]. cbn in He. subst adm. reflexivity.
+  unfold reload, load, serialize. cbn [m_edges ms_edges]. rewrite map_map.
+  induction (m_edges m) as [|e es IH]; [reflexivity|]. cbn [map]. rewrite IH. f_equal.
+  destruct e; reflexivity.
 Qed.
